@@ -23,6 +23,7 @@ type Contract struct {
 	Trusted    bool
 	Modifies   []string
 	Lemma      bool
+	Unroll     map[string]int
 	Pos        string
 }
 
@@ -99,6 +100,29 @@ func (db *SpecDB) pureExt(fn *ssa.Function) bool {
 	switch pp {
 	case "fmt", "strings", "strconv", "errors", "time", "net", "path", "path/filepath", "unicode", "unicode/utf8", "math", "sort", "slices", "maps", "bytes", "encoding/base64", "encoding/hex", "crypto/md5", "crypto/subtle", "reflect", "context", "net/url", "net/netip", "github.com/samber/lo", "math/rand", "crypto/rand", "regexp":
 		return true
+	}
+	return false
+}
+
+// detExt: library functions that are deterministic functions of their
+// (value) arguments.
+func (db *SpecDB) detExt(fn *ssa.Function) bool {
+	pp := pkgPathOf(fn)
+	switch pp {
+	case "strings", "strconv", "slices", "bytes", "path", "path/filepath", "unicode", "unicode/utf8", "encoding/base64", "encoding/hex", "crypto/md5", "net/netip", "math":
+		// functions taking pointers / writers are not value functions
+		for _, p := range fn.Params {
+			switch types.Unalias(p.Type()).Underlying().(type) {
+			case *types.Pointer, *types.Interface, *types.Signature, *types.Chan, *types.Map:
+				return false
+			}
+		}
+		return true
+	case "net":
+		switch fn.Name() {
+		case "JoinHostPort", "SplitHostPort", "ParseIP", "ParseCIDR":
+			return true
+		}
 	}
 	return false
 }
@@ -227,6 +251,15 @@ func (db *SpecDB) readFile(prog *ssa.Program, p *packages.Package, spkg *ssa.Pac
 			case "trusted":
 				if con != nil {
 					con.Trusted = true
+				}
+			case "unroll":
+				// unroll <target> <ordinal> <K>: only while verifying this unit
+				if con != nil && len(dir) >= 4 {
+					if con.Unroll == nil {
+						con.Unroll = map[string]int{}
+					}
+					k, _ := strconv.Atoi(dir[3])
+					con.Unroll[expandName(dir[1])+"#"+dir[2]] = k
 				}
 			case "modifies":
 				if con != nil {
